@@ -883,7 +883,7 @@ pub fn gen_workload(run_seed: u64, engine: Engine, lim: &Limits, faults: bool) -
         }
     };
     let n_programs = r.range(4.min(lim.max_programs as i64), lim.max_programs as i64) as usize;
-    let stub_rate = *r.pick(&[0u64, 60, 150, 300]);
+    let stub_rate = if engine == Engine::M { *r.pick(&[150u64, 300]) } else { *r.pick(&[0u64, 60, 150, 300]) };
     let ill = *r.pick(&[0u64, 0, 10, 40]);
     // names visible to programs: root names plus everything scopes may define (type-preserving)
     let mut env: Vec<(String, Ty)> = root_names.clone();
